@@ -21,6 +21,9 @@ ROUND_TEXT = {
     12: "as round 10",
     13: "as round 10",
     14: "as round 10; changes whose effect only shows after printing a library object were declared unacceptable too",
+    15: "as round 14",
+    16: "as round 14; the seeders were asked to prefer code that the property itself is about",
+    17: "as round 16",
 }
 
 
